@@ -9,7 +9,8 @@ from .. import core, pipes, structural as st
 
 THEOREMS = ['Pk.C06.C06_gap', 'Pk.C06.C06_normal_eq_optimal', 'Pk.C06.C06_scaling', 'Pk.C06.C06_unique',
             'Pk.C06.C06_normal_unique', 'Pk.C06.C06_recovery', 'Pk.C06.C06_svd_formula',
-            'Pk.C06.C06_driver_certificate']
+            'Pk.C06.C06_driver_certificate', 'Pk.C06.C06_normal_eq_solvable', 'Pk.C06.C06_lstsq_exact',
+            'Pk.C06.C06_lstsq_normal', 'Pk.C06.C06_edmd_lstsq_optimal']
 ALPHAS = [Fraction(0), Fraction(1, 4), Fraction(1), Fraction(5, 2), Fraction(1, 16)]
 
 
@@ -79,6 +80,54 @@ def oracle_opt(c, rng):
             if cost(Psi, Theta, alpha, U + eps * D) < base - 1e-9 * max(1.0, base):
                 return 'a perturbed matrix has lower regularised cost than coef_'
     return None
+
+
+def oracle_rank_deficient(rng):
+    """C06_edmd_lstsq_optimal on the implementation, where the Gram matrix is SINGULAR (duplicated / dependent features,
+    fewer pairs than features) and alpha = 0: hypothesis - coef_ is a least-squares solution of H^T X = G^T in the code's
+    own H, G, q - and conclusion - the gradient of the documented cost vanishes, no perturbation does better"""
+    rs = np.random.RandomState(rng.randint(0, 2 ** 31 - 1))
+    nx, nu = rng.randint(1, 3), rng.randint(0, 2)
+    kind = rng.choice(['duplicated feature', 'dependent feature', 'few pairs', 'zero feature'])
+    n = rng.randint(3, 5) if kind == 'few pairs' else rng.randint(12, 25)
+    base = rs.randint(-4, 5, (n, nx + nu)).astype(float)
+    if kind == 'duplicated feature':
+        base = np.hstack((base[:, :nx], base[:, [0]], base[:, nx:]))
+        nx += 1
+    elif kind == 'dependent feature':
+        base = np.hstack((base[:, :nx], base[:, :nx].sum(axis=1, keepdims=True), base[:, nx:]))
+        nx += 1
+    elif kind == 'zero feature':
+        base = np.hstack((base[:, :nx], np.zeros((n, 1)), base[:, nx:]))
+        nx += 1
+    elif kind == 'few pairs':
+        extra = rs.randint(-4, 5, (n, 3)).astype(float)
+        base = np.hstack((base[:, :nx], extra, base[:, nx:]))
+        nx += 3
+    alpha = rng.choice([0.0, 0.0, 0.5])
+    est = pykoop.Edmd(alpha=alpha).fit(base, n_inputs=nu)
+    Psi, Theta = base[:-1].T, base[1:, :nx].T
+    q = Psi.shape[1]
+    H = (Psi @ Psi.T + alpha * np.eye(Psi.shape[0])) / q
+    G = (Theta @ Psi.T) / q
+    Xs = est.coef_
+    scale = max(1.0, np.max(np.abs(H)) * max(np.max(np.abs(G)), np.max(np.abs(Xs))))
+    case = {'kind': kind, 'alpha': alpha, 'nx': nx, 'nu': nu, 'X': base.tolist(), 'rank_H': int(np.linalg.matrix_rank(H)), 'p': int(H.shape[0])}
+    hyp = np.max(np.abs(H @ (H.T @ Xs - G.T)))
+    if hyp > 1e-8 * scale * max(1.0, np.max(np.abs(H))):
+        return f'Edmd ({kind}, alpha={alpha}): coef_ is not a least-squares solution of H^T X = G^T (residual of its normal equations {hyp:.3g})', case
+    U = Xs.T
+    grad = -2 * (Theta - U @ Psi) @ Psi.T + 2 * alpha * U
+    gscale = max(1.0, np.max(np.abs(Theta @ Psi.T)), np.max(np.abs(U)) * np.max(np.abs(Psi @ Psi.T)))
+    if np.max(np.abs(grad)) > 1e-7 * gscale:
+        return f'Edmd ({kind}, alpha={alpha}, singular Gram matrix): normal equations violated, max |gradient| = {np.max(np.abs(grad)):.3g}', case
+    b = cost(Psi, Theta, alpha, U)
+    for eps in (1e-1, 1e-3):
+        for _ in range(4):
+            D = rs.randn(*U.shape)
+            if cost(Psi, Theta, alpha, U + eps * D) < b - 1e-9 * max(1.0, b):
+                return f'Edmd ({kind}, alpha={alpha}): a perturbed matrix has lower regularised cost than coef_', case
+    return None, case
 
 
 def oracle_recovery(rng):
@@ -157,6 +206,281 @@ def oracle_recovery(rng):
     return None, None
 
 
+# ----------------------------------------------------------------------------- pipeline clause
+# 'a pipeline fit equals regressing on the pipeline's own lifted data' - for EVERY pipeline and episode layout
+
+PIPE_KINDS = ('delay', 'delay', 'delay', 'poly', 'poly', 'bilinear', 'const', 'sk', 'rbf', 'kernel')
+PIPE_ALPHAS = [0.0, 0.0, 1 / 16, 0.1, 0.25, 1.0, 2.5]
+
+
+class _Timeout(Exception):
+    pass
+
+
+class time_limit:
+    """wall-clock limit for one call into the implementation (main thread only; elsewhere a no-op)"""
+
+    def __init__(self, seconds):
+        self.seconds = seconds
+        self.armed = False
+
+    def _raise(self, signum, frame):
+        raise _Timeout()
+
+    def __enter__(self):
+        import signal
+        import threading
+        if threading.current_thread() is threading.main_thread() and hasattr(signal, 'SIGALRM'):
+            self.old = signal.signal(signal.SIGALRM, self._raise)
+            signal.alarm(self.seconds)
+            self.armed = True
+        return self
+
+    def __exit__(self, *a):
+        if self.armed:
+            import signal
+            signal.alarm(0)
+            signal.signal(signal.SIGALRM, self.old)
+        return False
+
+
+def top_stages(spec):
+    return spec['ss'] if spec['k'] == 'pipe' else [spec]
+
+
+def build_pipeline(spec, regressor):
+    lfs = [(f'p{i}', pipes.build(s)) for i, s in enumerate(top_stages(spec))]
+    return pykoop.KoopmanPipeline(lifting_functions=lfs or None, regressor=regressor)
+
+
+def build_regressor(c):
+    r = c['regressor']
+    if r == 'Edmd':
+        return pykoop.Edmd(alpha=c['alpha'])
+    if r == 'EdmdMeta':
+        return pykoop.EdmdMeta()
+    if r == 'Dmdc':
+        return pykoop.Dmdc()
+    if r == 'Dmd':
+        return pykoop.Dmd()
+    raise ValueError(r)
+
+
+def gen_pipe_case(rng):
+    """any pipeline (delays at any position, nested / split / opaque stages), any episode layout - in particular episodes
+    only just long enough to yield snapshot pairs (min_samples_+1 .. 2*min_samples_ samples), next to long ones, alone,
+    or next to episodes that yield none - and data that are NOT fitted exactly (noise, nonlinear lifting) with alpha >= 0"""
+    for _ in range(200):
+        nx, nu = rng.randint(1, 3), rng.choice([0, 1, 1, 2])
+        spec = pipes.gen_spec(rng, PIPE_KINDS, nx, nu, max_depth=2, max_len=3, cap=14)
+        if rng.random() < 0.04:
+            spec = {'k': 'pipe', 'ss': []}
+        if pipes.loss(spec) == 0 and rng.random() < 0.6:
+            # a delay stage somewhere in the chain
+            d = {'k': 'delay', 'dx': rng.randint(0, 3), 'du': rng.randint(0, 3)}
+            if rng.random() < 0.5:
+                d['du'] = d['dx']
+            ss = list(top_stages(spec))
+            # (stages such as grid centres or angle features are generated for the width they see: a delay goes in front of
+            # them only through the chain generator itself)
+            free = pipes.kinds_in(spec) <= {'poly', 'bilinear', 'const', 'sk', 'delay', 'split', 'pipe'}
+            ss.insert(rng.randint(0, len(ss)) if free else len(ss), d)
+            spec = {'k': 'pipe', 'ss': ss}
+        try:
+            w = pipes.widths(spec if spec['k'] != 'pipe' or spec['ss'] else {'k': 'poly', 'order': 1, 'io': False}, nx, nu)
+        except Exception:
+            continue
+        if not 0 < sum(w) <= 24:
+            continue
+        m = pipes.loss(spec) + 1            # samples needed for ONE lifted sample; m + 1 samples give one snapshot pair
+        ep = rng.random() < 0.85
+        n_eps = rng.randint(1, 6) if ep else 1
+        style = rng.choice(['mixed', 'mixed', 'long+short', 'all short', 'any'])
+        lengths = []
+        for j in range(n_eps):
+            r = rng.random()
+            if style == 'all short' or (style == 'long+short' and j > 0) or (style == 'mixed' and r < 0.5):
+                n = rng.randint(m + 1, 2 * m)                       # 1 .. m snapshot pairs
+            elif style == 'long+short' and j == 0:
+                n = 2 * m + sum(w) + rng.randint(0, 8)
+            elif r < 0.6:
+                n = m                                               # one lifted sample, no pair: contributes nothing
+            elif r < 0.8:
+                n = 2 * m + rng.randint(0, 2)                       # just above twice the minimum
+            else:
+                n = 2 * m + rng.randint(1, 12)
+            lengths.append(n)
+        if all(n <= m for n in lengths):
+            lengths[rng.randrange(n_eps)] = m + rng.randint(1, m)
+        rng.shuffle(lengths)
+        rs = np.random.RandomState(rng.randint(0, 2 ** 31 - 1))
+        data = rng.choice(['noisy linear', 'noisy linear', 'random', 'linear'])
+        A = rs.uniform(-1, 1, (nx, nx))
+        A *= rng.choice([0.5, 0.9]) / max(0.2, np.max(np.abs(np.linalg.eigvals(A))))
+        B = rs.uniform(-1, 1, (nx, nu))
+        noise = {'noisy linear': rng.choice([0.02, 0.2]), 'random': 0.0, 'linear': 0.0}[data]
+        labels = rng.sample(range(12), n_eps)
+        blocks = []
+        for l, n in zip(labels, lengths):
+            u = rs.uniform(-1, 1, (n, nu))
+            if data == 'random':
+                x = rs.uniform(-1, 1, (n, nx))
+            else:
+                x = np.zeros((n, nx))
+                x[0] = rs.uniform(-1, 1, nx)
+                for k in range(n - 1):
+                    x[k + 1] = A @ x[k] + B @ u[k] + noise * rs.uniform(-1, 1, nx)
+            blocks.append((l, np.hstack((x, u))))
+        layout = 'contiguous'
+        if not ep:
+            X = blocks[0][1]
+        elif len(blocks) > 1 and rng.random() < 0.3:
+            X = st.interleave_blocks(rng, blocks)
+            layout = 'interleaved'
+        else:
+            X = st.ref_combine(blocks, True)
+        regs = ['Edmd'] * 8 + ['EdmdMeta', 'Dmdc'] + (['Dmd', 'Dmd'] if nu == 0 else [])
+        reg, alpha = rng.choice(regs), rng.choice(PIPE_ALPHAS)
+        if sum(max(0, n - m) for n in lengths) <= sum(w) + 1 and rng.random() < 0.85:
+            # fewer snapshot pairs than lifted features: the regularised problem is the well-posed one
+            reg, alpha = 'Edmd', rng.choice([a for a in PIPE_ALPHAS if a > 0])
+        return {'spec': spec, 'nx': nx, 'nu': nu, 'ep': ep, 'lengths': lengths, 'labels': labels, 'min_samples': m,
+                'style': style, 'layout': layout, 'data': data, 'alpha': alpha, 'regressor': reg,
+                'perturb_seed': rng.randint(0, 2 ** 31 - 1), 'X': X.tolist()}
+    raise RuntimeError('no pipeline case')
+
+
+def oracle_pipeline(c, count=lambda k: None):
+    """The Koopman matrix of KoopmanPipeline.fit(X) is the regularised least-squares optimum over ALL snapshot pairs of the
+    pipeline's own lifted data. The lifted data come from a route that does not pass through KoopmanPipeline.fit (a second
+    pipeline: fit_transformers, then transform), the snapshot pairs are formed here (consecutive lifted samples of one
+    episode), the optimum is computed here (stacked least squares)."""
+    X = np.array(c['X'], dtype=float)
+    ep, nu, alpha, m = c['ep'], c['nu'], float(c['alpha']), c['min_samples']
+    desc = (f"pipeline {json.dumps(c['spec'])} with {c['regressor']}(alpha={alpha:g}) on episodes of lengths {c['lengths']} "
+            f"(min_samples {m}, {c['layout']}, {c['data']} data)")
+    # ---- reference route
+    try:
+        with time_limit(10):
+            ref = build_pipeline(c['spec'], pykoop.DataRegressor())
+            ref.fit_transformers(X, n_inputs=nu, episode_feature=ep)
+            Xt = np.asarray(ref.transform(X), dtype=float)
+            nu_out = int(ref.n_inputs_out_)
+    except Exception as ex:         # the lifting itself is not applicable to these data: out of this clause's domain
+        count('pipeline:lifting not applicable')
+        return None
+    if not np.all(np.isfinite(Xt)):
+        count('pipeline:lifting not finite')
+        return None
+    # every episode of n >= min_samples samples yields n - min_samples + 1 lifted samples, hence n - min_samples pairs
+    lifted = st.ref_split(Xt, ep)
+    got = {l: Xe.shape[0] for l, Xe in lifted}
+    want = {l: n - m + 1 for l, n in zip(c['labels'] if ep else [0], c['lengths'])}
+    if got != want:
+        return f'the lifted data do not hold n - min_samples + 1 samples of every episode (got {got}, expected {want}): {desc}'
+    p = Xt.shape[1] - (1 if ep else 0)
+    p_theta = p - nu_out
+    eps_ref = [Xe for _, Xe in lifted if Xe.shape[0] >= 2]
+    Psi = np.vstack([Xe[:-1] for Xe in eps_ref]).T
+    Theta = np.vstack([Xe[1:, :p_theta] for Xe in eps_ref]).T
+    q = Psi.shape[1]
+    if q != sum(max(0, n - m) for n in c['lengths']):
+        return f'{q} snapshot pairs instead of sum(n - min_samples): {desc}'
+    # ---- the implementation
+    try:
+        with time_limit(10):
+            kp = build_pipeline(c['spec'], build_regressor(c))
+            kp.fit(X, n_inputs=nu, episode_feature=ep)
+            own = np.asarray(kp.transform(X), dtype=float)
+            U = np.asarray(kp.regressor_.coef_, dtype=float).T
+    except _Timeout:
+        count('pipeline:timeout')
+        return None
+    except Exception as ex:
+        if c['regressor'] != 'Edmd':
+            # does the regressor itself accept these lifted data?
+            try:
+                with time_limit(10):
+                    build_regressor(c).fit(Xt, n_inputs=nu_out, episode_feature=ep)
+            except Exception:
+                count('pipeline:regressor not applicable')
+                return None
+        return (f'KoopmanPipeline.fit raises {type(ex).__name__} ({str(ex)[:120]}) although the lifting applies to the data and '
+                f'the lifted data hold {q} snapshot pairs: {desc}')
+    if own.shape != Xt.shape or np.max(np.abs(own - Xt)) > 1e-9 * max(1.0, np.max(np.abs(Xt))):
+        return f"after fit, the pipeline's lifting differs from the lifting fitted on the same data by fit_transformers: {desc}"
+    if U.shape != (p_theta, p):
+        return f'coef_ has shape {U.T.shape}, expected {(p, p_theta)}: {desc}'
+    if c['regressor'] != 'Edmd':
+        # any other regressor: the same regressor given the lifted data directly (its own optimality is the business of the
+        # recovery oracle); only where the answer is a continuous function of the data
+        if q < p + 1 or np.linalg.cond(Psi) > 1e3:
+            count('pipeline:not compared (ill-conditioned lifted data)')
+            return None
+        try:
+            with time_limit(10):
+                direct = build_regressor(c).fit(Xt, n_inputs=nu_out, episode_feature=ep)
+        except Exception:
+            count('pipeline:regressor not applicable')
+            return None
+        err = np.max(np.abs(direct.coef_.T - U))
+        if err > 1e-8 * max(1.0, np.max(np.abs(direct.coef_))):
+            return f'pipeline fit differs from the same regressor fitted on the lifted data (max difference {err:.3g}): {desc}'
+        count('pipeline:checked')
+        return None
+    H = Psi @ Psi.T + alpha * np.eye(p)
+    if np.linalg.cond(H) > 1e6:
+        count('pipeline:not compared (ill-conditioned lifted data)')
+        return None
+    # the optimum, computed without forming the Gram matrix: min || [Psi^T; sqrt(alpha) I] U^T - [Theta^T; 0] ||_F
+    Ma = np.vstack((Psi.T, np.sqrt(alpha) * np.eye(p)))
+    Mb = np.vstack((Theta.T, np.zeros((p, p_theta))))
+    U_ref = np.linalg.lstsq(Ma, Mb, rcond=None)[0].T
+    base, best = cost(Psi, Theta, alpha, U), cost(Psi, Theta, alpha, U_ref)
+    size = max(1.0, np.linalg.norm(Theta, 'fro') ** 2)
+    if base > best + 1e-9 * size:
+        return (f'coef_ is not the least-squares optimum over the lifted data: cost {base:.6g} against {best:.6g} attained by '
+                f'another matrix ({q} snapshot pairs): {desc}')
+    grad = -2 * (Theta - U @ Psi) @ Psi.T + 2 * alpha * U
+    scale = max(1.0, np.max(np.abs(Theta @ Psi.T)))
+    if np.max(np.abs(grad)) > 1e-7 * scale:
+        return f'normal equations over the lifted data violated: max |gradient| = {np.max(np.abs(grad)):.3g}: {desc}'
+    rs = np.random.RandomState(c['perturb_seed'])
+    for eps in (1e-1, 1e-3):
+        for _ in range(3):
+            D = rs.randn(*U.shape)
+            if cost(Psi, Theta, alpha, U + eps * D) < base - 1e-9 * max(1.0, base):
+                return f'a perturbed matrix has lower regularised cost over the lifted data than coef_: {desc}'
+    count('pipeline:checked')
+    return None
+
+
+def pipe_tags(c):
+    return {'part': 'pipeline', 'regressor': c['regressor'], 'delay': pipes.loss(c['spec']) > 0}
+
+
+def count_pipe(ctx, c):
+    m = c['min_samples']
+    ctx.count('pipeline_cases')
+    ctx.count('pipeline:delay' if m > 1 else 'pipeline:no delay')
+    ctx.count('pipeline:alpha>0' if c['alpha'] > 0 else 'pipeline:alpha=0')
+    ctx.count('pipeline:' + c['regressor'])
+    ctx.count('pipeline:' + c['data'])
+    if len(c['lengths']) > 1:
+        ctx.count('pipeline:multi_episode')
+    if c['layout'] == 'interleaved':
+        ctx.count('pipeline:interleaved')
+    short = [n for n in c['lengths'] if m + 1 <= n <= 2 * m]
+    if m > 1 and any(n < 2 * m for n in short):
+        ctx.count('pipeline:episode of min_samples+1..2*min_samples-1 samples')
+        if any(n > 2 * m for n in c['lengths']):
+            ctx.count('pipeline:such an episode next to a long one')
+        if len(short) == len(c['lengths']):
+            ctx.count('pipeline:only such episodes')
+    if any(n == m for n in c['lengths']):
+        ctx.count('pipeline:episode without a pair')
+
+
 def population_search(ctx):
     """failing-input search over a fresh population (also used when an exception raised inside the implementation
     ended the correspondence run early)"""
@@ -166,15 +490,29 @@ def population_search(ctx):
         if why:
             ctx.fail(why, c, {'regressor': 'Edmd'})
             return
+        pc = gen_pipe_case(ctx.rng)
+        why = oracle_pipeline(pc)
+        if why:
+            ctx.fail(why, pc, pipe_tags(pc))
+            return
 
 
 def run(ctx):
     ctx.rule = ('integer-valued single/multi-episode data (tall, square, wide; cond(H) <= 1e4; alpha in dyadic set incl. 0) '
                 'given to Edmd in both call forms and to the exact rational solver of the model (certified U H = G); '
-                'recovery oracle on noise-free systems of dimension 1..6 with 0..3 inputs (stable, marginal, unstable)')
+                'recovery oracle on noise-free systems of dimension 1..6 with 0..3 inputs (stable, marginal, unstable); '
+                'pipeline clause: generated pipelines (delays at any position, split / nested / opaque stages, lifted width <= 24) '
+                'with Edmd(alpha >= 0) / EdmdMeta / Dmdc / Dmd on 1..6 episodes whose lengths run from min_samples_ over '
+                'min_samples_+1 .. 2*min_samples_ to long (mixed, long + short, only short; contiguous or interleaved; with and '
+                'without episode feature), noisy linear / random / noise-free data')
     ctx.explanation = ('theorems C06_* over Matrix R (gap identity, optimality, uniqueness, scaling, recovery, SVD formula) '
                        'plus the certificate theorem for the rational driver; correspondence: coef_ vs exact rational '
-                       'solution (1e-9 scale); oracle: gradient / perturbation optimality, recovery, pipeline = lifted regression')
+                       'solution (1e-9 scale); oracle: gradient / perturbation optimality, recovery, pipeline = lifted regression; '
+                       'pipeline oracle: the lifted data are taken from a second pipeline (fit_transformers + transform, not fit), must '
+                       'hold n - min_samples_ + 1 samples of every episode, the snapshot pairs and the stacked least-squares optimum are '
+                       'computed by the harness; KoopmanPipeline.fit must not raise, must leave the same lifting, and its coef_ must '
+                       'attain the optimal cost, satisfy the normal equations and beat perturbations over ALL these pairs (other '
+                       'regressors: equal the same regressor fitted on the lifted data)')
     ctx.proof_obligations('Properties.C06', THEOREMS)
     drv = ctx.get_driver()
     lines, meta = [], []
@@ -212,6 +550,23 @@ def run(ctx):
         ctx.count('recovery_cases' if case is None or 'family' not in case else 'recovery:' + case['family'])
         if why:
             ctx.fail(why, case, {'part': 'recovery'})
+
+    # singular Gram matrices: the hypothesis and the conclusion of C06_edmd_lstsq_optimal on the implementation
+    for i in range(ctx.n(40, 600)):
+        why, case = oracle_rank_deficient(ctx.rng)
+        ctx.count('singular Gram matrix:' + case['kind'] + (' (alpha=0)' if case['alpha'] == 0 else ' (alpha>0)'))
+        if case['rank_H'] < case['p']:
+            ctx.count('singular Gram matrix: H really rank-deficient')
+        if why:
+            ctx.fail(why, case, {'regressor': 'Edmd', 'part': 'singular Gram matrix'})
+
+    for i in range(ctx.n(150, 2000)):
+        pc = gen_pipe_case(ctx.rng)
+        count_pipe(ctx, pc)
+        ctx.record_case({k: pc[k] for k in ('spec', 'nx', 'nu', 'ep', 'lengths', 'alpha', 'regressor', 'layout', 'data')}, True)
+        why = oracle_pipeline(pc, ctx.count)
+        if why:
+            ctx.fail(why, pc, pipe_tags(pc))
 
     def search(ctx):
 
